@@ -56,32 +56,24 @@ Section Counters.
     (* the three clamps only produce numbers *)
     destruct (if ltb O hmax (s_h H s) then _ else _) as [[[d1 h1] neq1] lucur1]. nxt.
     destruct (if ltb O h1 hmin && _ then _ else _) as [[[d2 h2] neq2] lucur2]. nxt.
-    destruct (_ && eqb O _ (zero O)); [fin|].
-    destruct (if ltb O (zero O) _ then (_, _, _, _) else _) as [[[d3 h3] neq3] lucur3]. nxt.
-    destruct (eqb O _ (s_x H s)); [fin|].
+    (* `over` (beyond xend, or beside it): both later uses are decided by one case split *)
+    match goal with |- out_counted (if ?c && _ then _ else _) => destruct c; cbn [andb] end.
+    1: destruct (eqb O _ (zero O)); [fin|].
+    all: nxt.
+    all: destruct (eqb O _ (s_x H s)); [fin|].
     (* factorisation *)
-    destruct (negb lucur3 || _); nxt.
-    - destruct (lu_decomp _ _ _ _ _ _); nxt; try fin.
-      all: match goal with |- context [nr_calls ?t] => set (nrr := t) in *; clearbody nrr end.
-      all: destruct (negb (nr_conv nrr)); [fin|].
-      all: destruct (ltb O (one O) _); [fin|].
-      all: destruct (cb _ _ _ _ _) as [[cbs fl] ycb]; destruct fl; nxt; try fin.
-      all: destruct (leb O (zero O) _); [fin|].
-      all: repeat (match goal with
-                   | |- out_counted (if ?c then _ else _) => destruct c
-                   | |- out_counted (match (if ?c then _ else _) with _ => _ end) => destruct c
-                   end; nxt).
-      all: fin.
-    - match goal with |- context [nr_calls ?t] => set (nrr := t) in *; clearbody nrr end.
-      destruct (negb (nr_conv nrr)); [fin|].
-      destruct (ltb O (one O) _); [fin|].
-      destruct (cb _ _ _ _ _) as [[cbs fl] ycb]; destruct fl; nxt; try fin.
-      all: destruct (leb O (zero O) _); [fin|].
-      all: repeat (match goal with
-                   | |- out_counted (if ?c then _ else _) => destruct c
-                   | |- out_counted (match (if ?c then _ else _) with _ => _ end) => destruct c
-                   end; nxt).
-      all: fin.
+    all: match goal with |- out_counted (match (if ?c then _ else _) with _ => _ end) => destruct c end; nxt.
+    all: try (destruct (lu_decomp _ _ _ _ _ _); nxt; try fin).
+    all: match goal with |- context [nr_calls ?t] => set (nrr := t) in *; clearbody nrr end.
+    all: destruct (negb (nr_conv nrr)); [fin|].
+    all: destruct (ltb O (one O) _); [fin|].
+    all: destruct (cb _ _ _ _ _) as [[cbs fl] ycb]; destruct fl; nxt; try fin.
+    all: destruct (leb O (zero O) _); [fin|].
+    all: repeat (match goal with
+                 | |- out_counted (if ?c then _ else _) => destruct c
+                 | |- out_counted (match (if ?c then _ else _) with _ => _ end) => destruct c
+                 end; nxt).
+    all: fin.
   Qed.
 
   Theorem loop_counted fuel s r :
